@@ -45,8 +45,10 @@ const (
 )
 
 var (
-	semverNames = []string{"v1.2.3", "0.3.0", "10.20.30", "v2.0.0-rc.1", "1.0.0"}
-	plainNames  = []string{"prod", "latest-x", "staging", "release_candidate"}
+	// some names are proper prefixes of others ("v2.0.0" / "v2.0.0-rc.1", "prod" / "prod-eu"): their keys are
+	// prefix-related in the label name space
+	semverNames = []string{"v1.2.3", "0.3.0", "10.20.30", "v2.0.0-rc.1", "1.0.0", "v2.0.0"}
+	plainNames  = []string{"prod", "latest-x", "staging", "release_candidate", "prod-eu"}
 )
 
 // isSemverRef is the harness' own classification of the generated label names (never an ambiguous one)
